@@ -405,7 +405,7 @@ Section Reader.
     unfold wf_w in *. rewrite Hwf, Hwf'.
     destruct r; try contradiction.
     - destruct Hr as (_ & _ & k & c & _ & _ & ->). rewrite len_app. lia.
-    - destruct Hr as (k & _ & ->). rewrite len_app. lia.
+    - destruct Hr as (k & _ & -> & _). rewrite len_app. lia.
   Qed.
 
   Lemma append_all_ends_ge : forall rollover bufs st rs st',
@@ -509,7 +509,7 @@ Section Reader.
         - destruct Hr1 as (Hne & Hl & k & c & Hp & Hm & Hf). exists k, c. split; [exact Hp|]. split; [exact Hf|].
           right. split; [reflexivity|]. split; [intros ->; now apply Hne|]. split; [lia|]. split; [exact Hm|].
           eapply main_at_nonempty; eassumption.
-        - destruct Hr1 as (k & Hp & Hf). exists k, []. split; [exact Hp|]. split; [now rewrite app_nil_r|].
+        - destruct Hr1 as (k & Hp & Hf & _). exists k, []. split; [exact Hp|]. split; [now rewrite app_nil_r|].
           left. split; reflexivity. }
       destruct Hc1 as (k & c1 & Hpad & Hf1 & Hcase).
       assert (Hbw1 : w_bw st1 = p + k + len c1).
